@@ -461,7 +461,7 @@ func runC07(c *Ctx) {
 		trs = []string{"legacy"}
 		c.S.Count("probe.dozens_of_legacy_tunnels_at_once")
 	}
-	tw := PlanTunnels(c, TunOpts{N: n, Transports: trs, IDFormat: idf})
+	tw := PlanTunnels(c, TunOpts{N: n, Transports: trs, IDFormat: idf, ExtraHosts: []string{"u-nobody.test:3389"}})
 	// two tunnels may target the same machine on different ports, one of which is down
 	samePair := [2]int{-1, -1}
 	// (at most one of the special situations below per run)
@@ -627,6 +627,35 @@ func runC07(c *Ctx) {
 		c.S.Run(nil, 100, time.Second)
 		ds = append(ds, fmt.Sprintf("after-%d-tunnel-creates-with-a-revoked-token-by-someone-else", nb))
 		c.S.Count("probe.revoked_token_presented_repeatedly_by_another_client")
+	}
+	if special == 0 && c.T.Bool(1, 8) {
+		// somebody else keeps asking for a machine that is down (17-40 refused connection
+		// attempts in the life of this gateway process): whatever the gateway keeps per attempt
+		// (slots, counters, breakers) is his business, the run's tunnels to healthy hosts go on
+		down := "u-nobody.test:3389" // an allowed machine of nobody in this run; nothing listens there
+		nb := 17 + c.T.Choose(24)
+		done := 0
+		for k := 0; k < nb; k++ {
+			bp := &TunPlan{Name: fmt.Sprintf("dn%d", k), Transport: "ws", From: fmt.Sprintf("10.9.9.8:%d", 42000+k), ConnID: fmt.Sprintf("{DOWN-%d-%d}", c.Res.Seed&0xffff, k), User: "nightshift", CloseAfter: -1} // no AllowedHost: StartTunnels would start a listener for it
+			bp.AccessToken = c.W.IdP.IssueAccessToken(bp.User)
+			bp.Pkts = IdealHistory(c, tw, bp, 0, nil, false)
+			bp.Pkts[3] = PChannel(down, HostUnreachable)
+			if tw.MC.TokenAuth {
+				bp.Pkts[1] = PTunnelCreate(ValidCookie(c, tw, bp, down), true)
+			}
+			bt := StartTunnels(c, []*TunPlan{bp})
+			c.S.Run(func() bool {
+				return bt[0].Client.Failed != "" || bt[0].Err != "" || len(bt[0].Client.Packets()) >= 4 || bt[0].Client.Ended()
+			}, 5000, 40*time.Second)
+			if pk := bt[0].Client.Packets(); len(pk) >= 4 && pk[3].Pkt.Status != 0 {
+				done++
+			}
+			bt[0].Client.CloseAll(false)
+		}
+		c.S.Run(nil, 100, time.Second)
+		ds = append(ds, fmt.Sprintf("after-%d-channel-creates-for-%s-(down)-by-someone-else(%d answered)", nb, down, done))
+		c.S.Count("probe.many_failed_dials_by_another_client")
+		c.S.Stats["probe.failed_dials_answered_with_an_error"] += done
 	}
 	installStalls(c, c.T.Choose(3))
 	tw.Tuns = StartTunnels(c, tw.Plans)
